@@ -285,12 +285,34 @@ def run(repo: Repo, rep: Report) -> None:
                 whye = "wildcard-branch log entry is not inside an expansion loop"
                 if loop is not None:
                     tg = [norm(e) for e in loop.target.elts] if isinstance(loop.target, ast.Tuple) else []
+                    if isinstance(loop.target, ast.Tuple) and loop.target.elts and isinstance(loop.target.elts[0], ast.Tuple):
+                        # the store interface: ((s, p, o), contexts)
+                        tg = [norm(e) for e in loop.target.elts[0].elts]
                     enumer = any(isinstance(c, ast.Call) and isinstance(c.func, ast.Attribute) and c.func.attr in ("triples", "quads") for c in ast.walk(loop.iter))
                     pat_ok = all(cmp_ in norm(loop.iter) for cmp_ in comps)
                     oke = enumer and pat_ok and entry[:3] == tg[:3]
                     whye = ("entry components %s are the enumerated quads of %s" % (entry[:3], norm(loop.iter)[:60])) if oke else (
                         "entry %s is not the loop target %s of an enumeration of the removal pattern" % (entry[:3], tg))
                 rep.ob("C18.e-wildcards-expanded", mod, where, ap, oke, whye, node=ap)
+                if loop is not None and oke:
+                    # what is logged must be what will be removed: the enumeration is asked of the object that does the removing, for the same context.
+                    # (`context.triples(...)` of a ConjunctiveGraph context is the union of all graphs, the store removes from the one named graph)
+                    rm = [c for c in own_nodes(m) if isinstance(c, ast.Call) and isinstance(c.func, ast.Attribute) and c.func.attr == "remove" and norm(c.func.value).startswith("self.") and norm(c.func.value) != "self." + log]
+                    en = [c for c in ast.walk(loop.iter) if isinstance(c, ast.Call) and isinstance(c.func, ast.Attribute) and c.func.attr in ("triples", "quads")]
+                    if rm and en:
+                        recv = en[0].func.value
+                        same_obj = norm(recv) == norm(rm[0].func.value)
+                        if isinstance(recv, ast.Call) and norm(recv.func) in ("ConjunctiveGraph", "Dataset") and len(recv.args) == 1 and norm(recv.args[0]) == norm(rm[0].func.value) and len(en[0].args) == 1:
+                            same_obj = True  # the all-contexts view of that store, for a removal from all contexts
+                        same_ctx = len(en[0].args) > 1 and len(rm[0].args) > 1 and norm(en[0].args[1]) == norm(rm[0].args[1])
+                        # an enumeration without a context argument is accepted only where the removal is guarded to have none as well
+                        if len(en[0].args) == 1 and same_obj:
+                            same_ctx = True
+                        oks = same_obj and same_ctx
+                        rep.ob("C18.e-wildcards-expanded", mod, where, "enumeration %s vs removal %s" % (norm(en[0])[:60], norm(rm[0])[:50]), oks,
+                               "the triples logged are those the removing store reports for that context" if oks else
+                               "the undo entries are enumerated from %s but the removal is done by %s: the two can differ (a ConjunctiveGraph context enumerates the union of all graphs), "
+                               "rollback then re-adds triples that were never removed" % (norm(en[0])[:70], norm(rm[0])[:60]), node=en[0])
             else:
                 an = g.node_of(ap, mod)
                 gn = {g.by_ast[id(x)] for x in guards}
